@@ -1,10 +1,12 @@
 //! mrl-harness: drives the real mrecordlog (built from /repo's working tree with
 //! `--cfg mrecordlog_verif`) through generated or replayed cases, evaluates the property oracles
 //! on the implementation alone, and writes the annotated cases the Lean model driver replays.
+mod bytes;
 mod camp;
 mod crash;
 mod damage;
 mod gen;
+mod misc;
 mod ops;
 mod real;
 mod run;
